@@ -317,10 +317,25 @@ PROPS = {
         "technique": "Lean 4 invariant proof by induction over op sequences + differential correspondence on the real application + adversarial-token monitors",
         "explanation": "Backing invariant proved for all histories of the honest model; coin-origin and ERC20-origin pairs registered per case on the real application and driven with conversions, hook transfers, burns, mints, toggles and wrapped bank sends, six quantities compared with the model after every op; malicious and log-forging tokens registered and monitored.",
     },
+    "C03": {
+        "id": "C03",
+        "lean_modules": ["HaqqModel.Props.C03"],
+        "level": "proof",
+        "trusted_base": COMMON_TRUST + [
+            "assumed, not modelled: the cryptography — ECDSA signing and recovery on secp256k1, Keccak-256, RLP / protobuf / EIP-712 hashing as collision-free encodings of the signed content; it enters the theorems as the explicit hypothesis Unforgeable (a signature made over one payload does not verify for the same signer over another payload)",
+            "modelled, not verified: the auth keeper's sequence per account; that a refused transaction leaves no state (ante handlers run on a cached context)",
+        ],
+        "assumptions": [
+            "the payload over which a signature is made contains every transaction field, the chain id and the nonce / sequence (EIP-155/2930/1559 signing hashes; Cosmos SignDoc; EIP-712 typed data) — the single-field mutation sweep of the correspondence run probes exactly this on the real code",
+        ],
+        "level_text": "Partial (cryptography assumed explicitly). Machine-checked (Lean 4): an Ethereum-route batch is accepted exactly when its nonces are seq, seq+1, …; an accepted transaction is refused at every later point; over every history of valid, duplicated, out-of-order and batched submissions the nonces executed are exactly consecutive, each once; the Cosmos / EIP-712 routes accept only the current sequence; under Unforgeable no change of the signed payload is accepted for the original signer; kernel-checked over regenerated facts: the sequence decorator loads the account and compares the nonce for every message unconditionally, the signature decorator uses the chain's signer, refuses unprotected transactions and sets From from the recovered sender. Tied to the code by an exact differential run of real transactions through DeliverTx for all three routes, including every single-field mutation of all Ethereum transaction types with the signature kept.",
+        "level_note": "Partial: replay logic proved and tied to the code; binding to content proved under an explicit unforgeability hypothesis and probed field by field on the real ante chains. Trusted: Lean kernel; extractor; harness; go-ethereum / SDK crypto.",
+        "technique": "Lean 4 proofs of the sequence state machine (induction over histories) + binding theorem under an explicit unforgeability hypothesis + regenerated decorator-shape facts + differential correspondence on real signed transactions",
+        "explanation": "Sequence machine proved; real DeliverTx on the application with batches of 1–3 Ethereum messages (consecutive, duplicated, skipped, reversed nonces), replays, every single-field mutation (12 fields × 3 transaction types) and foreign-chain signatures, Cosmos direct-mode and EIP-712 (both variants) transactions signed with current / future / past sequence and this / another chain id, tampered after signing in six ways, and replays.",
+    },
 }
 
 # properties not (yet) claimed, each with a reason; entries disappear as checks are built
-NOT_APPLICABLE = {pid: "check not built yet in this session (planned: see DESIGN.md §5)" for pid in
-                  ["C03"]}
+NOT_APPLICABLE = {}
 
 HOOK_COMMITS = []
